@@ -14,13 +14,9 @@ def now_calls(path):
 
 
 def due_fact(E, path, now, expiry):
-    """Ge(now, expiry) as a path fact: 1 / 0 / None; also recognises the mirrored Le/Lt/Gt spellings"""
-    for op, a, b, flip in (('Ge', now, expiry, False), ('Le', expiry, now, False), ('Lt', now, expiry, True),
-                           ('Gt', expiry, now, True)):
-        k = const_of(E, path.facts, ('bin', op, a, b))
-        if k is not None:
-            return (1 - k) if flip else k
-    return None
+    """ge(now, expiry) as a path fact: 1 / 0 / None (every equivalent spelling)"""
+    from common import cmp_fact
+    return cmp_fact(E, path.facts, 'Ge', now, expiry)
 
 
 def run(C, R):
